@@ -21,6 +21,9 @@
 //!                                    place where time moves): every node sends everything registered with
 //!                                    its distributor since the last flush to every member it can reach
 //!   X:<j>:<i>                        node j runs one complete repair exchange against node i
+//!   XG:<j>:<i>                       a complete exchange during which the PEER's document reads fail: the
+//!                                    state is fetched, the removals apply, the documents cannot be
+//!                                    fetched; node j must not consider itself in sync
 //!   XD:<j>:<i> XR:<j> XM:<j>:<i>     the three steps of an exchange, separately
 //!   XF:<j>:<i>                       a complete exchange during which every storage write of node j fails:
 //!                                    node j must stay as it is AND must not consider itself in sync
@@ -249,6 +252,15 @@ struct Outcome {
 async fn run_schedule(n: usize, probes: &[u64], sched: &[String], stats: &mut hxcommon::Stats) -> Outcome {
     let mut nodes: Vec<NodeH> = Vec::new();
     let dist_mode = sched.iter().any(|t| t == "T");
+    // a schedule whose wall clock spans a forgiveness period or more is outside the premises of
+    // C01/C06 (cut-offs refuse and purge): the model is still compared, the oracles are not applied
+    let wide = {
+        let ticks: Vec<u64> = sched.iter().filter_map(|t| t.strip_prefix("W:").map(hx)).collect();
+        match (ticks.iter().min(), ticks.iter().max()) {
+            (Some(a), Some(b)) => b - a >= 3600 * 250 - 100_000,
+            _ => false,
+        }
+    };
     for i in 0..n {
         datacake_rpc::verif::unregister_local_server(addr_of(i));
     }
@@ -459,6 +471,20 @@ async fn run_schedule(n: usize, probes: &[u64], sched: &[String], stats: &mut hx
                 touched.push(j);
                 stats.hit("repair_full");
             },
+            ["XG", j, i] => {
+                let (j, i): (usize, usize) = (j.parse().unwrap(), i.parse().unwrap());
+                let mut peers = BTreeMap::new();
+                peers.insert(i as u8, addr_of(i));
+                nodes[i].store.set_fail_reads(true);
+                {
+                    let nj = &mut nodes[j];
+                    repair_peers(&nj.ctx, &peers, &mut nj.tracker).await;
+                }
+                settle().await;
+                nodes[i].store.set_fail_reads(false);
+                touched.push(j);
+                stats.hit("repair_with_failing_fetch");
+            },
             ["XF", j, i] => {
                 let (j, i): (usize, usize) = (j.parse().unwrap(), i.parse().unwrap());
                 let mut peers = BTreeMap::new();
@@ -612,7 +638,11 @@ async fn run_schedule(n: usize, probes: &[u64], sched: &[String], stats: &mut hx
         out.results.push(line);
     }
     // ---- C01 oracle: after quiescence every node serves exactly the last-writer-wins documents ----
-    if last_issue_done {
+    if wide {
+        out.fails.clear();
+        stats.hit("wide_schedules");
+    }
+    if last_issue_done && !wide {
         let mut lww: BTreeMap<u64, (u64, Option<u64>)> = BTreeMap::new();
         for (k, t, pl) in &issued {
             let e = lww.entry(*k).or_insert((*t, *pl));
@@ -842,6 +872,54 @@ fn random_distributor_schedule(rng: &mut Rng, n: usize) -> Vec<String> {
     toks
 }
 
+/// A wide schedule (C05): two or three nodes whose operations span several forgiveness periods,
+/// with every kind of exchange in between - cut-offs move, old operations are refused, tombstones
+/// get purged.  Only the model is compared (see `wide` in run_schedule).
+fn random_wide_schedule(rng: &mut Rng, n: usize) -> Vec<String> {
+    let keys = [1u64, 2, 3, 4];
+    let mut toks: Vec<String> = Vec::new();
+    let mut tick = 90_000_100u64;
+    let mut payload = 0x8000 + rng.below(1000) * 16;
+    let mut have_slot = vec![false; n];
+    for _ in 0..(6 + rng.below(20)) {
+        tick += match rng.below(5) {
+            0 => 3600 * 250 + rng.below(5000), // more than a forgiveness period later
+            1 => 3600 * 125,
+            _ => 1 + rng.below(3000),
+        };
+        toks.push(format!("W:{:x}", tick));
+        payload += 1;
+        let i = rng.below(n as u64) as usize;
+        let j = (i + 1 + rng.below(n as u64 - 1) as usize) % n;
+        match rng.below(14) {
+            0 | 1 | 2 => toks.push(format!("I:{}:none:p:{:x}:{:x}", i, rng.pick(&keys), payload)),
+            3 | 4 => toks.push(format!("I:{}:none:d:{:x}", i, rng.pick(&keys))),
+            5 => {
+                let items: Vec<String> = (0..1 + rng.below(3)).map(|x| format!("{:x}.{:x}", keys[x as usize], payload + 0x1000 * x)).collect();
+                toks.push(format!("I:{}:one:P:{}", i, items.join(",")));
+            },
+            6 => {
+                let items: Vec<String> = (0..1 + rng.below(3)).map(|x| format!("{:x}", keys[x as usize])).collect();
+                toks.push(format!("I:{}:none:D:{}", i, items.join(",")));
+            },
+            7 | 8 | 9 => toks.push(format!("X:{}:{}", j, i)),
+            10 => {
+                toks.push(format!("XD:{}:{}", j, i));
+                have_slot[j] = true;
+            },
+            11 => {
+                if have_slot[j] {
+                    toks.push(if rng.chance(1, 2) { format!("XR:{}", j) } else { format!("XM:{}:{}", j, i) });
+                }
+            },
+            12 => toks.push(format!("P:{}", i)),
+            _ => toks.push(format!("B:{}:{}", i, j)),
+        }
+    }
+    toks.push("Q".to_string());
+    toks
+}
+
 /// The schedules the property names.
 fn named_schedules() -> Vec<(usize, Vec<String>)> {
     let s = |v: &[&str]| v.iter().map(|x| x.to_string()).collect::<Vec<String>>();
@@ -857,6 +935,9 @@ fn named_schedules() -> Vec<(usize, Vec<String>)> {
         (2, s(&["W:55d4a90", "L:1:0", "I:0:one:p:1:c1", "W:55d4a91", "L:1:1", "I:0:one:d:1", "B:0:1", "Q"])),
         // duplicated batch, restart in between
         (2, s(&["W:55d4a90", "I:0:none:P:1.d1,2.d2", "B:0:1", "B:0:1", "R:1", "B:0:1", "Q"])),
+        // an exchange whose document fetch fails (after the state was fetched and the removals applied)
+        // must be repeated too
+        (2, s(&["W:55d4a90", "I:0:none:p:1:f1", "W:55d4a93", "I:0:none:p:2:f2", "W:55d4a95", "I:0:none:d:3", "XG:1:0", "Q"])),
         // an exchange whose writes all fail must be repeated: the node is not in sync afterwards
         (2, s(&["W:55d4a90", "I:0:none:p:1:f1", "W:55d4a95", "I:0:none:d:2", "XF:1:0", "Q"])),
         // an exchange races with writes on the polled node: what it did not see must still be pulled later
@@ -876,7 +957,15 @@ fn main() {
     let focus_c06 = args.extra.get("focus").map(|f| f == "c06").unwrap_or(false);
     let rt = tokio::runtime::Builder::new_current_thread().enable_all().start_paused(true).build().unwrap();
     rt.block_on(async {
-        let probes: Vec<u64> = vec![mk_probe(90_000_000), mk_probe(90_050_000)];
+        let mut probes: Vec<u64> = vec![mk_probe(90_000_000), mk_probe(90_050_000)];
+        if args.extra.get("focus").map(|f| f == "c05").unwrap_or(false) {
+            // cut-off probes for every node id at several ages
+            for node in 0..4u64 {
+                for tick in [90_000_150u64, 90_900_000, 91_800_000, 93_600_000] {
+                    probes.push((mk_probe(tick) & !0xFF) | node);
+                }
+            }
+        }
         if let Some(path) = &args.replay {
             for line in std::fs::read_to_string(path).unwrap().lines() {
                 let toks: Vec<&str> = line.split_whitespace().collect();
@@ -918,6 +1007,15 @@ fn main() {
                     }
                 }
             }
+        }
+        if args.extra.get("focus").map(|f| f == "c05").unwrap_or(false) {
+            let n_wide = if args.thorough() { 20_000 } else { 2_500 };
+            for _ in 0..n_wide {
+                let n = 2 + rng.below(2) as usize;
+                let s = random_wide_schedule(&mut rng, n);
+                run_case(&mut w, n, &probes, &s).await;
+            }
+            return;
         }
         let n_dist = if args.thorough() { 6_000 } else { 600 };
         for _ in 0..n_dist {
